@@ -433,7 +433,7 @@ func (w *World) scanFromEOF(g *Grammar, c rune, eofAfter int) []scanOutcome {
 	}
 	ai := w.newInterp(hooks)
 	ai.MaxVisits = 2
-	st := newAState()
+	st := w.initState()
 	sc := st.externObj(g.ScannerT, nil)
 	sc.Fields[currIdx] = aInt(int64(c))
 	sc.Fields[consumedField] = aStr("")
